@@ -1,5 +1,6 @@
 import Frp.Lemmas.Health
 import Frp.Lemmas.Client
+import Frp.Lemmas.WrapperConc
 /-
   C19 — The client keeps exactly the configured-and-healthy proxies registered.
 
@@ -8,6 +9,10 @@ import Frp.Lemmas.Client
   client/visitor/visitor_manager.go).
 
   Part H — health counting.   Part W — wrapper phase machine.   Part R — reload diff.
+  Part K — the wrapper's goroutines and its mutex (Frp/Model/WrapperConc.lean): every interleaving
+  of the worker iteration, Stop, SetRunningStatus and the monitor callbacks refines the atomic
+  machine of Part W, so the theorems of Part W hold for the concurrent code, in particular "a stopped
+  proxy sends no further registration" in wire order.
 
   TWO FINDINGS of the models of the pinned code (both reproduced on the real code by the engines,
   both repaired in /repo since: H by 75a9f5a — the driver uses `HealthFixed` —, R by eab68f8 —
@@ -717,6 +722,128 @@ example : (updateAll (updateAll Reconcile.init [⟨1, 0, false, false⟩, ⟨2, 
 
 end R
 
+/-! # Part K — goroutines and `pw.mu`: all interleavings -/
+section K
+open Wrapper WrapperConc
+
+/-- REFINEMENT, for EVERY schedule (label list) of the worker goroutine, any number of `Stop` and
+    `SetRunningStatus` callers and monitor callbacks: the atomic machine of Part W, run over the
+    events in the order in which their critical sections were entered (`lin`), reaches exactly the
+    state the lock holder will leave behind (`fin`), and has emitted exactly the messages that are on
+    the wire plus those the lock holder has decided to send but not handed over yet. -/
+theorem conc_refines (w0 : W) (ls : List Label) : Ref w0 (exec (WrapperConc.init w0) ls) :=
+  ref_exec w0 ls _ (ref_init w0)
+
+/-- nobody inside a critical section and the worker not between its health load and its Lock() -/
+def Quiescent (s : S) : Prop := s.hold = .free ∧ ∀ now h, s.wpc ≠ .loaded now h
+
+/-- at every quiescent point of every schedule the wrapper and the wire are those of a SEQUENTIAL
+    run of the atomic machine -/
+theorem conc_quiescent_atomic (w0 : W) (ls : List Label)
+    (hq : Quiescent (exec (WrapperConc.init w0) ls)) :
+    (run w0 (exec (WrapperConc.init w0) ls).lin).1 = (exec (WrapperConc.init w0) ls).w ∧
+    (run w0 (exec (WrapperConc.init w0) ls).lin).2.1 = (exec (WrapperConc.init w0) ls).wire := by
+  have h := conc_refines w0 ls
+  generalize exec (WrapperConc.init w0) ls = s at h hq
+  obtain ⟨hf, hn⟩ := hq
+  have hlq : hl s = s.w.health := by
+    simp only [hl]
+  refine ⟨?_, ?_⟩
+  · rw [h.st, hlq]; simp [fin, hf]
+  · rw [h.ms]; simp [fin, hf]
+
+/-- mutual exclusion as the model has it: while any goroutine is inside its critical section — e.g.
+    the worker between its phase write and the hand-over of NewProxy — `Stop`, `SetRunningStatus`
+    and the worker's `Lock()` do not return -/
+theorem conc_lock_excludes (s : S) (h : s.hold ≠ .free) :
+    sstep s .stopLock = s ∧ (∀ now e, sstep s (.respLock now e) = s) ∧ sstep s .wLock = s := by
+  refine ⟨?_, ?_, ?_⟩
+  · simp only [sstep, sstepG]
+  · intro now e; simp only [sstep, sstepG]
+  · simp only [sstep, sstepG]
+    split
+    · contradiction
+    · rfl
+
+/-- "A stopped proxy sends no further registration", in WIRE ORDER and for ALL interleavings: from
+    the moment Stop has written `Phase = closed` (which is before its own CloseProxy goes out),
+    whatever any goroutine does afterwards, the status stays closed and nothing but CloseProxy is
+    ever appended to the wire -/
+theorem conc_no_newProxy_after_stop (w0 : W) (ls ls' : List Label)
+    (hc : (exec (WrapperConc.init w0) ls).w.phase = .closed) :
+    (exec (WrapperConc.init w0) (ls ++ ls')).w.phase = .closed ∧
+    ∃ extra, (exec (WrapperConc.init w0) (ls ++ ls')).wire = (exec (WrapperConc.init w0) ls).wire ++ extra ∧
+      Msg.newProxy ∉ extra := by
+  rw [exec_append]
+  obtain ⟨h1, extra, h2, h3⟩ := closed_exec ls' _ (sendInv_exec ls _ (sendInv_init w0)) hc
+  refine ⟨h1, extra, h2, ?_⟩
+  intro hm
+  have := h3 _ hm
+  cases this
+
+theorem lastOf_append (p : Option Msg) (a b : List Msg) : lastOf (lastOf p a) b = lastOf p (a ++ b) := by
+  unfold lastOf
+  cases b with
+  | nil => simp
+  | cons x xs =>
+    rw [List.getLast?_append]
+    cases h : (x :: xs).getLast? <;> simp_all
+
+theorem lastRun_eq (es : List Event) : ∀ (w : W) (p : Option Msg),
+    lastRun p w es = lastOf p (run w es).2.1 := by
+  induction es with
+  | nil => intro w p; simp [lastRun, run, lastOf]
+  | cons e es ih =>
+    intro w p
+    simp only [lastRun, run]
+    rw [ih, lastOf_append]
+
+/-- status and the server's view are in step at every quiescent point of every schedule: the LAST
+    message on the wire is NewProxy iff the status is waiting/running, CloseProxy iff it is
+    check-failed/closed -/
+theorem conc_sync (c : Cfg) (id : Nat) (ls : List Label)
+    (hq : Quiescent (exec (WrapperConc.init (mk c id)) ls)) :
+    Sync (exec (WrapperConc.init (mk c id)) ls).w (lastOf none (exec (WrapperConc.init (mk c id)) ls).wire) := by
+  obtain ⟨h1, h2⟩ := conc_quiescent_atomic (mk c id) ls hq
+  have := sync_run c id (exec (WrapperConc.init (mk c id)) ls).lin
+  rw [lastRun_eq, h1, h2] at this
+  exact this
+
+/-- the schedule of the `race` op: the worker decides to register, a reload calls Stop while the
+    message is being handed over, Stop has to wait, the wire order is NewProxy, CloseProxy -/
+def raceSchedule : List Label :=
+  [.wWake 0, .wLock, .hold, .stopLock, .hold, .stopLock, .hold, .stopLock, .hold, .hold, .hold, .wLate]
+
+theorem race_schedule_wire :
+    (exec (WrapperConc.init (mk ⟨1, 0, false, false⟩ 1)) raceSchedule).wire = [.newProxy, .closeProxy] ∧
+    (exec (WrapperConc.init (mk ⟨1, 0, false, false⟩ 1)) raceSchedule).lin = [.tick 0, .stop] ∧
+    (exec (WrapperConc.init (mk ⟨1, 0, false, false⟩ 1)) raceSchedule).w.phase = .closed := by decide
+
+/-- the theorems above discriminate: in the variant that releases the mutex between the phase write
+    and the hand-over (`early`; NOT the code) the same schedule puts NewProxy on the wire AFTER the
+    CloseProxy of Stop — the server keeps a proxy the client has closed -/
+theorem earlyUnlock_witness :
+    (execG true (WrapperConc.init (mk ⟨1, 0, false, false⟩ 1)) raceSchedule).wire = [.closeProxy, .newProxy] ∧
+    (execG true (WrapperConc.init (mk ⟨1, 0, false, false⟩ 1)) raceSchedule).w.phase = .closed := by decide
+
+/-- …so the "no registration after Stop" statement is false for that variant -/
+theorem earlyUnlock_not_quiet :
+    ¬ (∀ (w0 : W) (ls ls' : List Label), (execG true (WrapperConc.init w0) ls).w.phase = .closed →
+        ∃ extra, (execG true (WrapperConc.init w0) (ls ++ ls')).wire =
+          (execG true (WrapperConc.init w0) ls).wire ++ extra ∧ Msg.newProxy ∉ extra) := by
+  intro h
+  obtain ⟨extra, h1, h2⟩ := h (mk ⟨1, 0, false, false⟩ 1) (raceSchedule.take 9) (raceSchedule.drop 9) (by decide)
+  have e1 : (execG true (WrapperConc.init (mk ⟨1, 0, false, false⟩ 1)) (raceSchedule.take 9 ++ raceSchedule.drop 9)).wire
+      = [.closeProxy, .newProxy] := by decide
+  have e2 : (execG true (WrapperConc.init (mk ⟨1, 0, false, false⟩ 1)) (raceSchedule.take 9)).wire = [.closeProxy] := by
+    decide
+  rw [e1, e2] at h1
+  have : extra = [.newProxy] := by simpa using h1.symm
+  subst this
+  exact h2 (by simp)
+
+end K
+
 /-! # Executable predicates (run by the driver on the implementation's answers) -/
 section Exec
 open Wrapper Reconcile
@@ -771,6 +898,70 @@ def updHoldsOn (old : List W) (cfgs : List Cfg) (evs : List String) : Bool :=
     no work connection was accepted -/
 def stoppedQuiet (impl : String) : Bool :=
   !(impl.toList.contains 'N') && impl != "handed" && !impl.startsWith "ok"
+
+/-! ### predicates for overlapping operations (op `race`) -/
+
+/-- by name: the status reported after the operations and the LAST message of that name on the wire
+    are in step — `Sync` read on the implementation's answer (`none` = no proxy of that name is
+    configured any more; `start error` is reached both after a refusal, last message NewProxy, and
+    after a local Run() failure, last message CloseProxy) -/
+def raceSyncOK (seq : List Msg) (ph : Option Phase) : Bool :=
+  match seq.getLast?, ph with
+  | none, _ => true
+  | some m, some .waitStart => m == .newProxy
+  | some m, some .running => m == .newProxy
+  | some _, some .startErr => true
+  | some m, _ => m == .closeProxy
+
+/-- `Sync` (proved for every schedule: `conc_sync`) implies the executable predicate -/
+theorem raceSyncOK_of_Sync (w : W) (seq : List Msg) (h : Sync w (lastOf none seq)) :
+    raceSyncOK seq (some w.phase) = true := by
+  obtain ⟨h1, h2, h3⟩ := h
+  unfold lastOf at h1 h2 h3
+  unfold raceSyncOK
+  cases hl : seq.getLast? <;> cases hp : w.phase <;> simp_all
+
+/-- the wrapper whose registration was held in the transporter is closed at the end ⇒ a CloseProxy
+    follows that registration on the wire (messages: kind, held?) -/
+def raceStopOK (seq : List (Msg × Bool)) (aClosed : Bool) : Bool :=
+  !aClosed ||
+    match seq.dropWhile (fun m => !m.2) with
+    | (.newProxy, _) :: rest => rest.any (fun m => m.1 == .closeProxy)
+    | _ => true
+
+/-- a wire that ends with CloseProxy — which `conc_sync` gives for every schedule that ends with the
+    wrapper closed — passes it -/
+theorem raceStopOK_of_last (seq : List (Msg × Bool)) (b : Bool)
+    (h : (seq.map (·.1)).getLast? = some .closeProxy) : raceStopOK seq b = true := by
+  unfold raceStopOK
+  cases b
+  · rfl
+  · simp only [Bool.not_true, Bool.false_or]
+    induction seq with
+    | nil => simp [List.dropWhile]
+    | cons m rest ih =>
+      cases hr : rest with
+      | nil =>
+        subst hr
+        obtain ⟨k, st⟩ := m
+        simp at h
+        subst h
+        cases st <;> simp [List.dropWhile]
+      | cons r rs =>
+        have hlast : (rest.map (·.1)).getLast? = some .closeProxy := by
+          rw [hr] at h ⊢
+          simpa [List.getLast?_cons_cons] using h
+        have ih' := ih hlast
+        obtain ⟨k, st⟩ := m
+        cases st
+        · simpa [List.dropWhile, hr] using ih'
+        · cases k
+          · simp only [List.dropWhile, Bool.not_true]
+            have hm : Msg.closeProxy ∈ rest.map (·.1) := List.mem_of_getLast? hlast
+            obtain ⟨x, hx, hk⟩ := List.mem_map.mp hm
+            rw [← hr]
+            exact List.any_eq_true.mpr ⟨x, hx, by simp [hk]⟩
+          · simp [List.dropWhile]
 
 def cbChar : Option Cb → String
   | none => "." | some .normal => "N" | some .failed => "F"
